@@ -17,15 +17,23 @@ SPECS = {}
 # reasons for properties not (yet) claimed
 NA = {}
 
+C10_H = ["manifest/c10_kernel.go", "manifest/c10_text.go"]
 SPECS["C10"] = dict(
     level="model_checking",
     outside="manifests larger than the stated block/token counts; python keep.py/arvfile.py callers",
     assumptions=["block sizes 0..maxsize, up to `blocks` blocks; file token inside the stream (parser precondition)"],
     runs=[
-        dict(name="firstblock", pkg="sdk/go/manifest", harness=["manifest/c10_kernel.go"], entry="GosymH_C10_firstblock",
+        dict(name="firstblock", pkg="sdk/go/manifest", harness=C10_H, entry="GosymH_C10_firstblock",
              params=dict(quick=dict(blocks=4, maxsize=20), thorough=dict(blocks=6, maxsize=40)), witnesses=["found"]),
-        dict(name="segments", pkg="sdk/go/manifest", harness=["manifest/c10_kernel.go"], entry="GosymH_C10_segments",
+        dict(name="segments", pkg="sdk/go/manifest", harness=C10_H, entry="GosymH_C10_segments",
              params=dict(quick=dict(blocks=3, maxsize=20), thorough=dict(blocks=5, maxsize=40)), witnesses=["done", "multi-block-file"]),
+        dict(name="stream", pkg="sdk/go/manifest", harness=C10_H, entry="GosymH_C10_stream",
+             params=dict(quick=dict(blocks=2, maxsize=3, tokens=2), thorough=dict(blocks=3, maxsize=4, tokens=3)), witnesses=["done", "file-of-three-or-more-segments"]),
+        dict(name="reject", pkg="sdk/go/manifest", harness=C10_H, entry="GosymH_C10_reject", witnesses=["done", "accepted", "rejected"]),
+        dict(name="names", pkg="sdk/go/manifest", harness=C10_H, entry="GosymH_C10_names",
+             params=dict(quick=dict(maxlen=2), thorough=dict(maxlen=4)), witnesses=["done"]),
+        dict(name="extract", pkg="sdk/go/manifest", harness=C10_H, entry="GosymH_C10_extract",
+             params=dict(quick={"maxsize": 2, "symbolic-bystander": 0}, thorough={"maxsize": 2, "symbolic-bystander": 1}), witnesses=["done"]),
     ],
 )
 
